@@ -1057,7 +1057,10 @@ def vault_case(ctx: fw.Ctx, case: dict, T: list) -> None:
     slog = out['server_log']
     n401_creds = sorted({rec['sess'] for rec in slog if rec.get('fault', ('',))[0] == 'status'})   # distinct sessions = items
     single_key = len(case['init']) == 1
-    fresh_only = all(len(s['give']) == 1 and s['give'][0][3] for s in case['logins'][:len(out['logins'])])
+    # every login so far handed out exactly one set of valid credentials that had never been invalidated before
+    fresh_only = all(len(s['give']) == 1 and s['give'][0][3]
+                     and not (s['give'][0][1] in out['closed_at'] and out['closed_at'][s['give'][0][1]] <= t_login)
+                     for s, t_login in zip(case['logins'], out['logins']))
     ctx.count('vault_requesters', str(len(case['requesters'])))
     ctx.count('vault_reauths', str(min(len(out['logins']), 6)))
     ctx.count('vault_401_creds', str(min(len(n401_creds), 6)))
